@@ -963,6 +963,8 @@ from mlmverif.selfcheck import B, OK  # noqa: E402
 
 _F = 'chainables/tree.py'
 VARIANTS = [
+    OK('setter-copy-as-statement', 'chainables/tree.py',
+       "      result = tree if in_place else copy.copy(tree)", "      if in_place:\n        result = tree\n      else:\n        result = copy.copy(tree)"),
     OK('child-fetched-through-a-local', 'chainables/tree.py',
        "          result[key] = self._set_by_path(\n              result.get(key, NullMap()), Key(rest_keys), value, in_place\n          )",
        "          child = result.get(key, NullMap())\n          result[key] = self._set_by_path(\n              child, Key(rest_keys), value, in_place\n          )"),
